@@ -224,8 +224,9 @@ def run(run, model):
     from . import c04, loops
     run.do(c04.structure_rules, model)
     run.do(c04.invariant_provenance, model, "C18.merged-lists", "C18.inv-own")
-    from . import c05
+    from . import c05, common
     run.do(c05.pos_table, model, "C18.args-table", "C18.posonly")
+    run.do(common.truth_rule, model, "C18.truth")
     # what the dunders list is what is enforced: evaluating the listed contracts by hand gives the checker's verdict
     for role, ck in gates.checkers(model).items():
         for kind, depth in (("PRE", 2), ("POST", 1)):
